@@ -112,7 +112,10 @@ def w_schedule(case):
     m, desc, amount, state = build_model(case)
     direct = case['route'] == 'direct'
     dosed = case['dosed']
-    m.set_administration(dosed, amount_var=amount, direct=direct)
+    # the flag as Python bool, numpy bool or integer
+    flag = {'bool': direct, 'np': np.bool_(direct), 'int': int(direct)}[
+        case.get('flag', 'bool')]
+    m.set_administration(dosed, amount_var=amount, direct=flag)
     if case.get('via') == 'reduced':
         # the regimen is given to the parameter-fixing wrapper (nothing fixed); the
         # wrapper is what is simulated and asked for its regimen
@@ -235,6 +238,31 @@ def w_table(case):
         outcome.append(got)
         ok = len(got) == len(exp) and all(
             tol.allclose(np.array(g), np.array(e)) for g, e in zip(got, exp))
+        if ft is not None and case.get('sample_rows', True):
+            # the sample table repeats exactly these rows under every sample ID
+            for ns in (2, 3):
+                df_s = pm.sample([0.4, 0.9, 0.5, 0.2][:pm.n_parameters()],
+                                 [0.1 * ft, ft], n_samples=ns, seed=1,
+                                 include_regimen=True)
+                ntr += 1
+                rows = df_s[df_s['Dose'].notna()] if 'Dose' in df_s else df_s[:0]
+                per_id = {}
+                for _, r in rows.iterrows():
+                    per_id.setdefault(int(r['ID']), []).append(
+                        (float(r['Time']), float(r['Duration']), float(r['Dose'])))
+                bad = (exp and sorted(per_id) != list(range(1, ns + 1))) or any(
+                    len(v) != len(exp) or not tol.allclose(
+                        np.array(sorted(v)), np.array(exp))
+                    for v in per_id.values() if exp) or (not exp and per_id)
+                if bad:
+                    viol.append({
+                        'sub': 'sample_rows', 'message': 'sample(include_regimen='
+                        'True, n_samples=%d) does not list the dose events up to '
+                        'the last time under every sample ID (%s)' % (ns, reg),
+                        'expected': exp, 'observed': {str(k_): v for k_, v in
+                                                      per_id.items()},
+                        'behaviour': 'sample_rows'})
+                    break
         if not ok:
             indefinite = reg['period'] is not None and reg['num'] is None
             viol.append({
@@ -380,7 +408,15 @@ def w_dataset(case):
         for t, v in ind['obs']:
             rows.append({'ID': ind['id'], 'Time': t, 'Observable': 'conc',
                          'Value': v, 'Dose': np.nan, 'Duration': np.nan})
-        for t, dose, dur in ind['doses']:
+        if case.get('same_row') and ind['doses']:
+            # the first dose is recorded in the row of a measurement taken at the
+            # time of administration (a pre-dose sample)
+            t, dose, dur = ind['doses'][0]
+            rows.append({'ID': ind['id'], 'Time': t, 'Observable': 'conc',
+                         'Value': 0.05, 'Dose': dose,
+                         'Duration': np.nan if dur is None else dur})
+        for t, dose, dur in (ind['doses'][1:] if case.get('same_row')
+                             else ind['doses']):
             rows.append({'ID': ind['id'], 'Time': t, 'Observable': np.nan,
                          'Value': np.nan, 'Dose': dose,
                          'Duration': np.nan if dur is None else dur})
@@ -429,9 +465,12 @@ def w_dataset(case):
             d = 0.01 if (dur is None or not case['duration_column']) else dur
             p.add(myokit.ProtocolEvent(dose / d, t, d))
         f.set_dosing_regimen(p)
+        meas = list(ind['obs'])
+        if case.get('same_row') and ind['doses']:
+            meas = sorted(meas + [(ind['doses'][0][0], 0.05)])
         ref_ll = chi.LogLikelihood(
-            f, chi.GaussianErrorModel(), [v for _, v in ind['obs']],
-            [t for t, _ in ind['obs']])
+            f, chi.GaussianErrorModel(), [v for _, v in meas],
+            [t for t, _ in meas])
         exp = ref_ll(x)
         if not tol.close(got, exp, 1e-6, 1e-8):
             viol.append({'sub': 'applied', 'message': 'the likelihood of an '
@@ -498,6 +537,7 @@ def build(tier, seed):
                     c.update(perms)
                     c['sens_seq'] = ['none', 'on_on', 'on_subset', 'on_off',
                                      'off_on'][i % 5]
+                    c['flag'] = ['bool', 'np', 'int'][(i // 5) % 3]
                     sched.append(c)
                     if reg.get('kind') == 'regimen' and (
                             tier == 'thorough' or i % 2 == 0):
@@ -537,6 +577,9 @@ def build(tier, seed):
                          'doses': row_opts[a]},
                         {'id': ids[1], 'obs': [(1.0, 0.9)], 'doses': row_opts[b]}]
                 data.append({'inds': inds, 'duration_column': dcol})
+                if ids == [1, 2]:
+                    data.append({'inds': inds, 'duration_column': dcol,
+                                 'same_row': True})
     if tier == 'quick':
         data = data[::2]
     return {
